@@ -17,6 +17,11 @@ def isElemKind : Schema → Bool
   | .uint _ _ | .bool _ | .bytes _ _ | .name _ | .model _ _ _ => true
   | _ => false
 
+/-- the kinds `MapField.__init__` accepts as key type (UintField / BytesField) -/
+def isKeyKind : Schema → Bool
+  | .uint _ _ | .bytes _ _ => true
+  | _ => false
+
 def typs : List Schema → List Nat
   | [] => []
   | s :: r => match s.typ with
@@ -35,7 +40,7 @@ def wfS : Schema → Bool
   | .name t => t == 7
   | .model _ fs _ => wfFs fs && nodupB (typs fs)
   | .repeated e => isElemKind e && wfS e
-  | .map _ _ => false          -- MapField: not covered by the proofs (see parse_enc_roundtrip_partial)
+  | .map k v => isKeyKind k && wfS k && isElemKind v && wfS v && (k.typ != v.typ)
   | .marker => false
 def wfFs : List Schema → Bool
   | [] => true
@@ -45,10 +50,21 @@ end
 /-- a top-level model class -/
 def wfTop (fs : List Schema) : Bool := wfFs fs && nodupB (typs fs)
 
+def notNone : Value → Bool
+  | .none => false
+  | _ => true
+
+/-- the keys of a dict are pairwise different (first key of a pair is the earlier one) -/
+def keysDistinct : List (Value × Value) → Bool
+  | [] => true
+  | (a, _) :: r => r.all (fun e => !keyEq a e.1) && keysDistinct r
+
 mutual
 def fits : Schema → Value → Bool
   | .repeated e, .list vs => fitsList e vs
   | .repeated _, _ => false
+  | .map k v, .map es => fitsMap k v es && keysDistinct es
+  | .map _ _, _ => false
   | _, .none => true
   | .uint _ _, .uint _ => true
   | .bool _, .bool => true
@@ -63,6 +79,9 @@ def fitsFs : List Schema → List Value → Bool
 def fitsList : Schema → List Value → Bool
   | _, [] => true
   | e, v :: vs => (match v with | .none => false | _ => true) && fits e v && fitsList e vs
+def fitsMap : Schema → Schema → List (Value × Value) → Bool
+  | _, _, [] => true
+  | k, v, (a, b) :: r => notNone a && notNone b && fits k a && fits v b && fitsMap k v r
 end
 
 end Ndn.Codec
